@@ -729,7 +729,27 @@ impl HashColumn {
 		let reindex = self.reindex.upgradable_read();
 		let existing = Self::search_all_indexes(change.key(), &tables, &reindex, log)?;
 		if let Some((table, sub_index, existing_address)) = existing {
-			self.write_plan_existing(&tables, change, log, table, sub_index, existing_address)
+			let (outcome, pending_insert) = self.write_plan_existing(
+				&tables,
+				change,
+				log,
+				table,
+				sub_index,
+				existing_address,
+			)?;
+			if let Some(address) = pending_insert {
+				// The value moved and its chunk in the current index is full: grow the index
+				// until the new address fits, as for a new key.
+				let (mut tables, mut reindex) = (tables, reindex);
+				while let PlanOutcome::NeedReindex =
+					tables.index.write_insert_plan(change.key(), address, None, log)?
+				{
+					log::debug!(target: "parity-db", "{}: Index chunk full {}", tables.index.id, hex(change.key()));
+					(tables, reindex) = Self::trigger_reindex(tables, reindex, self.path.as_path());
+				}
+				return Ok(PlanOutcome::NeedReindex)
+			}
+			Ok(outcome)
 		} else {
 			match change {
 				Operation::Set(key, value) => {
@@ -768,7 +788,7 @@ impl HashColumn {
 		index: &IndexTable,
 		sub_index: usize,
 		existing_address: Address,
-	) -> Result<PlanOutcome> {
+	) -> Result<(PlanOutcome, Option<Address>)> {
 		let stats = if self.collect_stats { Some(&self.stats) } else { None };
 
 		let key = change.key();
@@ -782,7 +802,7 @@ impl HashColumn {
 			stats,
 			self.ref_counted,
 		)? {
-			(Some(outcome), _) => Ok(outcome),
+			(Some(outcome), _) => Ok((outcome, None)),
 			(None, Some(value_address)) => {
 				// If it was found in an older index we insert a new entry and drop the old one:
 				// reindexing would otherwise carry the stale address over into the new index.
@@ -792,12 +812,16 @@ impl HashColumn {
 					index.write_remove_plan(key, sub_index, log)?;
 					None
 				};
-				tables.index.write_insert_plan(key, value_address, sub_index, log)
+				match tables.index.write_insert_plan(key, value_address, sub_index, log)? {
+					// No room in the current index: the caller has to grow it and insert.
+					PlanOutcome::NeedReindex => Ok((PlanOutcome::NeedReindex, Some(value_address))),
+					outcome => Ok((outcome, None)),
+				}
 			},
 			(None, None) => {
 				log::trace!(target: "parity-db", "{}: Removing from index {}", tables.index.id, hex(key));
 				index.write_remove_plan(key, sub_index, log)?;
-				Ok(PlanOutcome::Written)
+				Ok((PlanOutcome::Written, None))
 			},
 		}
 	}
